@@ -178,3 +178,64 @@ func RenameRestore(e *errorspb.EncodedError) {
 		}
 	})
 }
+
+// DriftOwner locates the first details block that differs between two
+// messages of the same shape; returns its family name.
+func DriftOwner(a, b *errorspb.EncodedError) string {
+	var da, db []*errorspb.EncodedErrorDetails
+	var ma, mb []string
+	collect := func(e *errorspb.EncodedError, ds *[]*errorspb.EncodedErrorDetails, ms *[]string) {
+		var rec func(e *errorspb.EncodedError)
+		rec = func(e *errorspb.EncodedError) {
+			if w := e.GetWrapper(); w != nil {
+				*ds = append(*ds, &w.Details)
+				*ms = append(*ms, w.Message+"/"+w.MessageType.String())
+				rec(&w.Cause)
+			} else if l := e.GetLeaf(); l != nil {
+				*ds = append(*ds, &l.Details)
+				*ms = append(*ms, l.Message)
+				for _, c := range l.MultierrorCauses {
+					rec(c)
+				}
+			}
+		}
+		rec(e)
+	}
+	collect(a, &da, &ma)
+	collect(b, &db, &mb)
+	if len(da) != len(db) {
+		return "shape"
+	}
+	for i := range da {
+		if da[i].String() != db[i].String() || ma[i] != mb[i] {
+			return da[i].ErrorTypeMark.FamilyName
+		}
+	}
+	return "encoding-order"
+}
+
+// Decode decodes b at process p (its knowledge in effect during the decode).
+func (p Proc) Decode(b []byte) error {
+	restore := func() {}
+	if len(p.Forget) > 0 {
+		restore = errbase.VerifForgetTypes(p.keys())
+	}
+	defer restore()
+	return DecBytes(b)
+}
+
+// Transfer sends e through the history; the last process is the
+// observer, whose decoded error is returned.
+func Transfer(e error, hist []Proc) error {
+	b := EncBytes(e)
+	for _, p := range hist[:len(hist)-1] {
+		b = p.Receive(b, nil)
+	}
+	return hist[len(hist)-1].Decode(b)
+}
+
+// KeysOf lists the type keys on the wire for e (deep).
+func KeysOf(e error) []string {
+	enc := errors.EncodeError(Ctx, e)
+	return TypeKeys(&enc)
+}
